@@ -397,24 +397,24 @@ def tanCore (fuel : Nat) (sem : Sem) (v : Flt) : Option Flt :=
     | some bottom => some (sinx.div bottom)
 
 def tanTail (fuel : Nat) (orig : Sem) (small : Bool) (v0 : Flt) : Option Flt :=
-  finishWith orig (tanCore fuel ((orig.growLog 12).increaseExponent 4))
-    (tanRed fuel ((orig.growLog 12).increaseExponent 4) small (absOf v0) v0.sign)
+  finishWith orig (tanCore fuel (((orig.increasePrecision orig.p).growLog 12).increaseExponent 4))
+    (tanRed fuel (((orig.increasePrecision orig.p).growLog 12).increaseExponent 4) small (absOf v0) v0.sign)
 
 theorem tanFuel_normal (f : Nat) (x : Flt) (hx : x.cat = .normal) :
     x.tanFuel f = tanTail f x.sem (decide (x.exp < 0))
-      (x.castWithRm ((x.sem.growLog 12).increaseExponent 4) .none) := by
+      (x.castWithRm (((x.sem.increasePrecision x.sem.p).growLog 12).increaseExponent 4) .none) := by
   unfold Flt.tanFuel tanTail finishWith
   simp only [Flt.isZero, Flt.isNan, Flt.isInf, hx, show (Cat.normal == Cat.zero) = false from rfl,
     show (Cat.normal == Cat.nan) = false from rfl, show (Cat.normal == Cat.inf) = false from rfl,
     Bool.or_self, Bool.false_eq_true, if_false]
-  show (match tanRed f ((x.sem.growLog 12).increaseExponent 4) (decide (x.exp < 0))
-      (absOf (x.castWithRm ((x.sem.growLog 12).increaseExponent 4) .none))
-      (x.castWithRm ((x.sem.growLog 12).increaseExponent 4) .none).sign with
+  show (match tanRed f (((x.sem.increasePrecision x.sem.p).growLog 12).increaseExponent 4) (decide (x.exp < 0))
+      (absOf (x.castWithRm (((x.sem.increasePrecision x.sem.p).growLog 12).increaseExponent 4) .none))
+      (x.castWithRm (((x.sem.increasePrecision x.sem.p).growLog 12).increaseExponent 4) .none).sign with
     | none => none
     | some (v, neg) => _) = _
-  cases tanRed f ((x.sem.growLog 12).increaseExponent 4) (decide (x.exp < 0))
-      (absOf (x.castWithRm ((x.sem.growLog 12).increaseExponent 4) .none))
-      (x.castWithRm ((x.sem.growLog 12).increaseExponent 4) .none).sign with
+  cases tanRed f (((x.sem.increasePrecision x.sem.p).growLog 12).increaseExponent 4) (decide (x.exp < 0))
+      (absOf (x.castWithRm (((x.sem.increasePrecision x.sem.p).growLog 12).increaseExponent 4) .none))
+      (x.castWithRm (((x.sem.increasePrecision x.sem.p).growLog 12).increaseExponent 4) .none).sign with
   | none => rfl
   | some p =>
     obtain ⟨v, n⟩ := p
@@ -423,7 +423,7 @@ theorem tanFuel_normal (f : Nat) (x : Flt) (hx : x.cat = .normal) :
     | none => rfl
     | some sinx =>
       simp only
-      cases ((Flt.one ((x.sem.growLog 12).increaseExponent 4) false).sub sinx.sqr).sqrtM with
+      cases ((Flt.one (((x.sem.increasePrecision x.sem.p).growLog 12).increaseExponent 4) false).sub sinx.sqr).sqrtM with
       | none => rfl
       | some bottom => rfl
 
@@ -472,7 +472,7 @@ theorem tanRed_sem (fuel : Nat) (sem : Sem) (small : Bool) (v1 : Flt) (neg0 : Bo
     rw [← h.1]; exact hv
 
 theorem tanTail_neg (fuel : Nat) (orig : Sem) (small : Bool) (v0 : Flt) (hrm : orig.rm.Symm)
-    (hv : v0.sem = (orig.growLog 12).increaseExponent 4) :
+    (hv : v0.sem = ((orig.increasePrecision orig.p).growLog 12).increaseExponent 4) :
     tanTail fuel orig small v0.neg = (tanTail fuel orig small v0).map Flt.neg := by
   unfold tanTail
   rw [absOf_neg, Flt.neg_sign_tr, tanRed_flip]
